@@ -312,13 +312,14 @@ RECURSIVE DigitsVal(_, _, _)
 DigitsVal(f, i, j) == IF j < i THEN 0 ELSE 10 * DigitsVal(f, i, j - 1) + (f[j] - 48)
 
 Trunc == [ok |-> FALSE, why |-> "truncated"]
+TooLong == "width or precision of more than six digits"      \* not decided by this specification
 
 \* width-or-* at position i: [ok, i, v]; running off the end is an error
 ParseWidth(f, i) ==
   IF i <= Len(f) /\ f[i] = 42 THEN [ok |-> TRUE, i |-> i + 1, v |-> -1]
   ELSE LET j == SkipIn(f, i, 48..57) IN
        IF j > Len(f) THEN Trunc
-       ELSE IF j - i > 6 THEN [ok |-> FALSE, why |-> "number too long for this specification"]
+       ELSE IF j - i > 6 THEN [ok |-> FALSE, why |-> TooLong]
        ELSE [ok |-> TRUE, i |-> j, v |-> DigitsVal(f, i, j - 1)]
 
 \* i = position just after the %
@@ -545,7 +546,7 @@ FmtObj(parts, i, flds, acc, shp) ==
 Format(fmt, vals) ==
   IF fmt.t # "str" THEN Err("format is not a string")
   ELSE LET pr == ParseFormat(fmt.c) IN
-       IF ~pr.ok THEN Err(pr.why)
+       IF ~pr.ok THEN (IF pr.why = TooLong THEN Outside(pr.why) ELSE Err(pr.why))
        ELSE IF vals.t = "arr" THEN FmtArr(pr.parts, 1, vals.a, 0, <<>>, FALSE)
        ELSE IF vals.t = "obj" THEN FmtObj(pr.parts, 1, vals.f, <<>>, FALSE)
        ELSE FmtArr(pr.parts, 1, <<vals>>, 0, <<>>, FALSE)
